@@ -291,6 +291,7 @@ impl<'a, 'tcx> Cx<'a, 'tcx> {
                 ("k", q("Repeat")),
                 ("a", self.operand(o)),
                 ("n", opt(n.try_to_target_usize(tcx).map(|x| x.to_string()))),
+                ("ns", q(&format!("{}", n))),
             ]),
             Rvalue::Ref(_, bk, p) => obj(&[
                 ("k", q("Ref")),
